@@ -165,7 +165,7 @@ def run(ctx: Ctx) -> int:
     # code -> spec
     rng = random.Random(ctx.seed)
     texts = []
-    for _ in range(600 if q else 25000):
+    for _ in range(600 if q else 100000):
         is_bytes = rng.random() < 0.4
         qq = rng.choice(["d", "s", "td", "ts"])
         if is_bytes:
@@ -178,7 +178,7 @@ def run(ctx: Ctx) -> int:
             val = [c for c in rand_string(rng) if not 0xd800 <= c <= 0xdfff]
             raw = rng.random() < 0.2 and raw_ok(val, qq, False) and all(c >= 32 or c == 10 for c in val)
             texts.append(("str", encode(rng, val, False, raw, qq)))
-    for _ in range(300 if q else 8000):
+    for _ in range(300 if q else 30000):
         v = rng.choice([rng.randint(0, 2**64 + 5), rng.randint(0, 2**63 + 2), rng.randint(0, 300), 2**63, 2**64 - 1, 2**63 - 1])
         neg = rng.random() < 0.4
         hexa = rng.random() < 0.4
